@@ -3,4 +3,5 @@ NEXT GNext
 INVARIANT NoSharedSecret
 INVARIANT NoNonceReuse
 INVARIANT ReconfiguredFresh
+INVARIANT PartsFresh
 CHECK_DEADLOCK FALSE
